@@ -32,7 +32,7 @@ def main():
         rc, o = sh(["git", "-C", "/repo", "worktree", "add", "--detach", "-f", wt, "HEAD"])
         assert rc == 0, o
         if a.demo_file:
-            dst = os.path.join(wt, a.demo_dir, "zz_seed_demo_test.go" if a.demo_file.endswith("_test.go") else os.path.basename(a.demo_file))
+            dst = os.path.join(wt, a.module, a.demo_dir, "zz_seed_demo_test.go" if a.demo_file.endswith("_test.go") else os.path.basename(a.demo_file))
             shutil.copy(a.demo_file, dst)
             rc, o = sh(["go1.26.8", "test", "-vet=off", "-count=1", "-run", a.demo_run, "./" + a.demo_dir + "/"], cwd=os.path.join(wt, a.module) if a.module != "." else wt)
             out["demo_clean_pass"] = rc == 0
